@@ -67,3 +67,35 @@ def lifecycle(log):
         elif k == "end":
             out.append({"ev": "end"})
     return out
+
+
+END_STATES = ("CLOSING", "DRAINING", "TERMINATED")
+
+
+def acktracker(log):
+    out = [{"ev": "init"}]
+    pk = {}
+    for e in log:
+        if e["k"] == "pkt":
+            pk.setdefault(e["dg"], []).append(e)
+    for e in log:
+        k = e["k"]
+        if k == "arr":
+            out.append({"ev": "arr", "ep": e["ep"], "space": e["space"], "pn": e["pn"], "ackel": e["ackel"],
+                        "auth": e["haskeys"], "t": e["t"], "hc": e["hc"]})
+        elif k == "tx":
+            acks, spaces = [], []
+            for d in e["dgs"]:
+                for p in pk.get(d["id"], []):
+                    if not p.get("ok") or "frames" not in p:
+                        continue
+                    spaces.append(p["space"])
+                    for f in p["frames"]:
+                        if f["t"] == "ack":
+                            acks += [[p["space"], r[0], r[1]] for r in f["ranges"]]
+            out.append({"ev": "tx", "ep": e["ep"], "t": e["t"], "acks": acks, "spaces": sorted(set(spaces)),
+                        "validated": e["st"]["validated"],
+                        "closing": e["st"]["state"] in END_STATES or e["st0"]["state"] in END_STATES})
+        elif k == "gt":
+            out.append({"ev": "gt", "ep": e["ep"], "t": e["t"], "value": e["value"]})
+    return out
